@@ -11,6 +11,7 @@ import DsdVerif.Gen.Grammars
 import DsdVerif.Model.Kernel
 import DsdVerif.Model.Reader
 import DsdVerif.Gen.PyFuncs
+import DsdVerif.Model.Dlc
 
 namespace Dsd.Driver
 open Dsd
@@ -174,6 +175,15 @@ def step (line : String) : String :=
     match parsePt pt with
     | some pt => showPyLoop (Gen.py_make_loop_index pt (comp == "1")) (comp == "1")
     | none => "bad-op"
+  | ["dlc", seq, ss] =>
+    -- ComplexS.is_domainlevel_complement; every domain has length 5 in this stream
+    match makePairTable ss.toList with
+    | .error e => showErr e
+    | .ok pt =>
+      let stab := (makeStrandTableList "+" (words seq)).map (fun st => st.map (fun n => ({ name := n, len := 5 } : Dom)))
+      match isDomainLevelComplement stab pt with
+      | .ok b => if b then "ok True" else "ok False"
+      | .error e => showErr e
   | ["mst.str", seq, brk] =>
     "ok " ++ "|".intercalate ((makeStrandTableStr (firstChar brk) seq.toList).map String.ofList)
   | ["mst.list", seq, brk] =>
